@@ -76,7 +76,7 @@ var properties = map[string]Property{
 	},
 	"C03": {
 		Level:       "other",
-		Rules:       []string{"P-POST-NONEMPTY", "P-RTERR", "P-PANICTYPE", "P-ASSERT", "P-NILGUARD", "P-IFACE-EQ", "V-VALIDATED", "V-ACCEPT", "P-SCT", "O-SEQ", "I-OVERFLOW", "I-RANGE", "I-BUF", "I-PROGRESS", "G-IMPORTS"},
+		Rules:       []string{"P-POST-NONEMPTY", "P-RTERR", "P-PANICTYPE", "P-ASSERT", "P-NILGUARD", "P-IFACE-EQ", "V-VALIDATED", "V-ACCEPT", "V-TWO-CURRENT", "V-BOOL", "P-SCT", "O-SEQ", "I-OVERFLOW", "I-RANGE", "I-BUF", "I-PROGRESS", "G-IMPORTS"},
 		Explanation: "Decided (structural part): (i) every return of a retrieve-family function is a fresh error value, the result of a step on the same sink, a variable proven non-nil, or nil on a path where the sink is known non-empty (must-analysis over appends and len(result)>0 edges), so success is never empty and every result[0] read follows a successful step; (ii) only the three documented runtime error types are converted to the runtime-error interface, each implements error, and ErrorFunctionFailed is built only under a non-nil error of a user-function call; (iii) no explicit panic in evaluation code, reflect.TypeOf(x) dereferenced only under x != nil, every unchecked assertion is a pool element, a runtime error asserted to error, or a validated comparator operand, and every interface comparison has a nil / comparable-concrete operand or validated operands; (iv) recursion cycles descend on the tree and loops are counted/range/worklist loops. Not decided: index expressions of the filter list protocol (valueList[0], left[index] in AND/OR, rightValues[0]) whose safety needs a relational length invariant (assumed); time bounds beyond termination. Also decided (v): subscript arithmetic cannot overflow, produced indices lie in [0, length-1], buffer writes are in range and subscript loops terminate (zone abstract interpretation, see C11).",
 		Assumptions: []string{"assumed obligations: the list-length protocol of filter evaluation (every computed list has length 1 or the member count)"},
 	},
@@ -87,7 +87,7 @@ var properties = map[string]Property{
 	},
 	"C09": {
 		Level:       "other",
-		Rules:       []string{"V-OPS", "V-WIRE", "V-PREC", "V-SINGLE-RIGHT", "V-VALIDATED", "V-INPUT-PURE", "V-BOOL", "G-IMPORTS"},
+		Rules:       []string{"V-OPS", "V-WIRE", "V-PREC", "V-SINGLE-RIGHT", "V-VALIDATED", "V-INPUT-PURE", "V-BOOL", "V-TWO-CURRENT", "G-IMPORTS"},
 		Explanation: "Decided (structural part): each ordering builder realises one operator on every path — straight operands with its own comparator, exchanged operands with the mirror comparator — and the four operators are each realised by exactly one builder; every comparator's loop keeps exactly the elements for which `element OP right` holds and blanks the others; `!=` is NOT(==) over the same operands in order; no comparison is built with a per-member operand on the right of a member-independent one (evaluation reads only right[0]). Not decided: the Boolean-algebra clause (index-wise merge of per-member lists in AND/OR/NOT, the length-1 whole-match convention) . Also decided: each comparison / logical token of the grammar the generated parser runs runs the builder of its own operator with (left, right) in source order, and `||` binds looser than `&&`, looser than comparison / parentheses / `!`.",
 	},
 	"C10": {
